@@ -3921,6 +3921,12 @@ func CloneExpr(expr Expr) Expr {
 		return &VarRef{Val: expr.Val, Type: expr.Type}
 	case *Wildcard:
 		return &Wildcard{Type: expr.Type}
+	case *NilLiteral:
+		return &NilLiteral{}
+	case *BoundParameter:
+		return &BoundParameter{Name: expr.Name}
+	case *ListLiteral:
+		return &ListLiteral{Vals: append([]string(nil), expr.Vals...)}
 	}
 	panic("unreachable")
 }
